@@ -5,6 +5,10 @@ From Verif Require Import Base.PyValue Model.Eval Model.Order Model.Exec Model.N
 (* translator tie: required here, imported where the source theorems start (coqdep reads Requires reliably only
    in the header, see harness/PYMINI.md) *)
 From Verif Require Model.PyMini Model.PrimsApi Gen.SrcNaming Proofs.SrcNaming.
+(* group `prelude` (bld-misc): the statements of execute_select in front of the row loops, see the end of this file *)
+From Verif Require Model.PrimsPrelude Gen.SrcPrelude Proofs.SrcPrelude.
+(* group `targets` (bld-compiler3): the wildcard expansion of Compiler._compile_targets, see the end of this file *)
+From Verif Require Model.Compile Model.PrimsCompiler Model.PrimsSelect Gen.SrcTargets Proofs.SrcTargets.
 Open Scope Z_scope.
 
 Theorem C07_name_rule : forall t,
@@ -81,3 +85,119 @@ Example C07_source_example :
     [enc_target [66] {| p_alias := None; p_column := None; p_text := [32; 97; 43; 49; 32] |}]
   = Ok (PV (VStr [97; 43; 49])).
 Proof. reflexivity. Qed.
+
+(* ---- Group `prelude` (Gen/SrcPrelude.v, regenerated on every run by this check): the statements of
+   query_execute.execute_select in front of `if query.group_indexes is None:`, selected by structure; the translator
+   also checks that result_types and result_indexes are assigned exactly once in the whole function and that the
+   function returns `result_types, <rows>`.  For EVERY list of compiled targets (names None or a string, evaluators
+   opaque callables [PRef k] whose dtype attribute is the target's datatype) the translated statements leave
+     result_types   = the tuple of Column(name, datatype) of exactly the NAMED targets in order (Naming.description),
+     result_indexes = the positions of the same targets (Naming.result_indexes) - what the tail projects every row with
+                      (group exec, exec_order_tail takes it as a parameter),
+   and group_indexes / order_spec / c_where / rows / c_target_exprs as stated - PROVIDED no name is the empty string:
+   the description tests `name is not None`, the projection the truth value of the name.  C07_source_empty_name_refuted
+   is the witness that the hypothesis is needed: for a target named '' (reachable once an alias may be a quoted
+   string, seeded C07-m11; the unchanged grammar admits identifiers only) the translated statements describe one column
+   and project none.  A projection keyed by target name (seeded C07-m5) is another term: this no longer checks. *)
+Import Verif.Model.PrimsPrelude Verif.Gen.SrcPrelude.
+
+Theorem C07_source_result_types : forall (call_ref : nat -> list pv -> pv) (dtype_of : nat -> pv) (dt : Z -> pv)
+    (col : list Z -> Z -> pv) (kC : nat) (kts : list (nat * ctarget)) (g : option (list Z)) (o w : pv),
+  ref_of Gen.SrcPrelude.refs "beanquery.Column" = Some kC ->
+  (forall n ty, do_call call_ref (PRef kC) [PV (VStr n); dt ty] = Ok (col n ty)) ->
+  (forall k t, In (k, t) kts -> dtype_of k = dt (c_type t)) ->
+  forallb name_nonempty (map snd kts) = true ->
+  exec_block call_ref (prim_prelude dtype_of) {| locals := [("query", enc_evalquery kts g o w)]; fields := [] |}
+    (f_body exec_prelude) =
+  Ok (Next {| locals := [("query", enc_evalquery kts g o w);
+                         ("result_types", PTuple (map (fun nt => col (fst nt) (snd nt)) (description (map snd kts))));
+                         ("group_indexes", Proofs.SrcPrelude.group_set g);
+                         ("result_indexes", enc_indexes (result_indexes (map snd kts)));
+                         ("order_spec", o); ("c_where", w); ("rows", PList []);
+                         ("c_target_exprs", PList (map (fun kt => PRef (fst kt)) kts))]%string;
+              fields := [] |}).
+Proof. exact Proofs.SrcPrelude.prelude_source. Qed.
+Print Assumptions C07_source_result_types.
+
+Theorem C07_source_empty_name_refuted :
+  let cr := fun (k : nat) (args : list pv) => PTuple args in
+  exists s', exec_block cr (prim_prelude (fun _ => PInt 1))
+               {| locals := [("query", enc_evalquery Proofs.SrcPrelude.empty_named None PNone PNone)]%string; fields := [] |}
+               (f_body exec_prelude) = Ok (Next s') /\
+    PyMini.lookup "result_types" (locals s') = Some (PTuple [PTuple [PV (VStr []); PInt 1]]) /\
+    PyMini.lookup "result_indexes" (locals s') = Some (PList []) /\
+    List.length (description (map snd Proofs.SrcPrelude.empty_named)) = 1%nat /\
+    result_indexes (map snd Proofs.SrcPrelude.empty_named) = [0%nat].
+Proof. exact Proofs.SrcPrelude.prelude_empty_name. Qed.
+Print Assumptions C07_source_empty_name_refuted.
+
+(* Non-vacuity: SELECT a AS x, <hidden helper>, b GROUP BY 1, 3, 3 - two named targets around a hidden one *)
+Example C07_source_prelude_example :
+  let kts := [(5%nat, {| c_name := Some [120]; c_type := 1 |}); (6%nat, {| c_name := None; c_type := 2 |});
+              (7%nat, {| c_name := Some [98]; c_type := 3 |})] in
+  let cr := fun (k : nat) (args : list pv) => PTuple args in
+  let dtype_of := fun k : nat => PInt (Z.of_nat k - 4) in
+  ref_of Gen.SrcPrelude.refs "beanquery.Column" = Some 0%nat /\
+  forallb name_nonempty (map snd kts) = true /\
+  exists s', exec_block cr (prim_prelude dtype_of)
+      {| locals := [("query", enc_evalquery kts (Some [0; 2; 2]) PNone PNone)]%string; fields := [] |} (f_body exec_prelude)
+      = Ok (Next s') /\
+    PyMini.lookup "result_types" (locals s') = Some (PTuple [PTuple [PV (VStr [120]); PInt 1]; PTuple [PV (VStr [98]); PInt 3]]) /\
+    PyMini.lookup "result_indexes" (locals s') = Some (PList [PInt 0; PInt 2]) /\
+    PyMini.lookup "group_indexes" (locals s') = Some (PList [PInt 0; PInt 2]) /\
+    PyMini.lookup "c_target_exprs" (locals s') = Some (PList [PRef 5; PRef 6; PRef 7]).
+Proof. split; [reflexivity|]. split; [reflexivity|]. eexists. split; [vm_compute; reflexivity|]. repeat split. Qed.
+
+(* ---- bld-compiler3: where `*` is expanded.  Compiler._compile_targets, translated into PyMini on every run
+   (Gen/SrcTargets.v); the statement in front of the loop over the targets is selected by structure (the first
+   statement of the body, `if isinstance(targets, ast.Asterisk): targets = [..]`).  `*` becomes one
+   Target(Column(name), None) per name of self.table.wildcard_columns - the table of the enclosing FROM clause at that
+   moment -, in that order and without an AS name (so get_target_name, C07_source_target_name, names it by its column);
+   the result is bound to the LOCAL variable `targets`: neither the receiver nor the parsed statement is written, a
+   statement can be compiled again against another table.  A list of targets is left alone. ---- *)
+Module ST := Verif.Proofs.SrcTargets.
+Theorem C07_source_wildcard_expansion :
+  forall (call_ref : nat -> list pv -> pv) (tbl : nat -> Verif.Model.Compile.cnode) (kids : nat -> list nat)
+         (mro : string -> list string) (msg : string -> list pv -> pv) (updatable : pv -> bool)
+         (upd : pv -> pv -> pv -> pv -> pv) (s : st) (tbv : pv) (wild : list string),
+  PyMini.lookup "self" (locals s) = Some PSelf ->
+  PyMini.lookup "targets" (locals s) = Some ST.asterisk ->
+  PyMini.lookup "table" (fields s) = Some tbv -> tbv <> PSelf ->
+  Verif.Model.PrimsSelect.prim_select tbl kids mro msg updatable upd "attr:wildcard_columns" [tbv]
+    = Ok (PList (map PStr wild)) ->
+  PyMini.exec call_ref (Verif.Model.PrimsSelect.prim_select tbl kids mro msg updatable upd) s
+    (nth 0 (f_body Verif.Gen.SrcTargets.compile_targets) SPass)
+  = Ok (Next (write s (TName "targets") (PList (map ST.enc_wtarget wild)))).
+Proof. exact ST.wildcard_expand_src. Qed.
+Print Assumptions C07_source_wildcard_expansion.
+
+Theorem C07_source_wildcard_keeps_lists :
+  forall (call_ref : nat -> list pv -> pv) (tbl : nat -> Verif.Model.Compile.cnode) (kids : nat -> list nat)
+         (mro : string -> list string) (msg : string -> list pv -> pv) (updatable : pv -> bool)
+         (upd : pv -> pv -> pv -> pv -> pv) (s : st) (l : list pv),
+  PyMini.lookup "targets" (locals s) = Some (PList l) ->
+  PyMini.exec call_ref (Verif.Model.PrimsSelect.prim_select tbl kids mro msg updatable upd) s
+    (nth 0 (f_body Verif.Gen.SrcTargets.compile_targets) SPass) = Ok (Next s).
+Proof. exact ST.wildcard_keep_src. Qed.
+Print Assumptions C07_source_wildcard_keeps_lists.
+
+(* the model's expansion (Compile.wildcard_targets, what C07_wildcard and the statement-level theorems of C05 use)
+   yields the same columns in the same order, each named by its column and not an aggregate *)
+Theorem C07_source_wildcard_model : forall tb names ts,
+  Verif.Model.Compile.wildcard_targets_of tb names = Verif.Model.Compile.Ok ts ->
+  map Verif.Model.Compile.ct_name ts = map (@Some string) names
+  /\ map Verif.Model.Compile.ct_agg ts = map (fun _ => false) names.
+Proof. exact ST.wildcard_names. Qed.
+Print Assumptions C07_source_wildcard_model.
+
+(* the hypotheses are satisfiable: a table record with two wildcard columns *)
+Example C07_source_wildcard_example :
+  let tb := record [116] [("wildcard_columns", PList [PStr "date"; PStr "account"])]%string in
+  PyMini.exec (fun _ _ => PNone)
+    (Verif.Model.PrimsSelect.prim_select (fun _ => Verif.Model.Compile.NSub1D) (fun _ => []) (fun _ => [])
+       (fun _ _ => PNone) (fun _ => false) (fun _ _ _ _ => PNone))
+    {| locals := [("self", PSelf); ("targets", ST.asterisk)]%string; fields := [("table", tb)]%string |}
+    (nth 0 (f_body Verif.Gen.SrcTargets.compile_targets) SPass)
+  = Ok (Next {| locals := [("self", PSelf); ("targets", PList [ST.enc_wtarget "date"; ST.enc_wtarget "account"])]%string;
+                fields := [("table", tb)]%string |}).
+Proof. vm_compute. reflexivity. Qed.
